@@ -59,7 +59,9 @@ func vpHasName(names []string, n string) bool {
 //vp:maxpaths 600000
 //vp:maxsteps 600000
 //vp:bounds histories of up to 6 (thorough 7) calls over two writers A and B: CreateFile (file-name draws forced from {x, y, x-again}: collisions with reservations, temp files and published files), Write of a complete file image (A and B write different payloads), Close, Abort, TombstoneFile of either pointer, at any point; then a directory scan and OpenFile of every listed pointer
-func H_C16_any_call_sequence_lists_exactly_the_published_files() {
+func H_C16_any_call_sequence_lists_exactly_the_published_files() { vpFSHistories(false) }
+
+func vpFSHistories(faults bool) {
 	root := vpFSRoot()
 	if vpSymbolic() {
 		vpNewFS()
@@ -80,6 +82,9 @@ func H_C16_any_call_sequence_lists_exactly_the_published_files() {
 	// succeeded on it, until the path is tombstoned
 	ref := map[string][]byte{}
 	steps := vpBound(6, 7)
+	if faults {
+		steps = 5
+	}
 	for s := 0; s < steps; s++ {
 		i := nondetChoice(2)
 		w := ws[i]
@@ -112,7 +117,32 @@ func H_C16_any_call_sequence_lists_exactly_the_published_files() {
 				vpAssume(o.finished)
 			}
 			w.finished = true
+			if faults && nondetBool() { // an OS error inside Close: temp-file fsync, publishing rename or directory fsync
+				switch nondetChoice(3) {
+				case 0:
+					vpFS.failSyncFile = true
+				case 1:
+					vpFS.failRename = true
+				default:
+					vpFS.failSyncDir = true
+				}
+			}
 			w.closedOK = w.w.Close() == nil
+			if !w.closedOK && faults {
+				// what the engine does with a writer whose Close failed (abortFileWriter): discard and tombstone
+				w.w.(interface{ Abort() error }).Abort()
+				store.TombstoneFile(ctx, w.ptr)
+				w.tombstone = true
+				delete(ref, string(w.ptr))
+				if vpSymbolic() {
+					vpFS.failSyncFile, vpFS.failRename, vpFS.failSyncDir = false, false, false
+				}
+				names := vpDirNames(root)
+				base := string(w.ptr)[len(root)+1:]
+				if o := ws[1-i]; !(o.ptr != nil && string(o.ptr) == string(w.ptr)) {
+					vpAssert(!vpHasName(names, base) && !vpHasName(names, base[:len(base)-4]+".tmp"), "C16: a failed Close followed by Abort and TombstoneFile left an artifact of the pointer behind")
+				}
+			}
 			if w.closedOK {
 				if w.written {
 					ref[string(w.ptr)] = w.payload
@@ -223,3 +253,15 @@ func H_C16_known_abort_after_pointer_was_reissued() {
 	}
 	vpAssert(listed == 1, "C16: a file whose Close succeeded and that was not tombstoned afterwards is missing from the directory scan (deleted by the Abort of an earlier writer of the same, re-issued name)")
 }
+
+// The same histories (5 calls) in which any Close may hit an injected OS error at its temp-file
+// fsync, publishing rename or directory fsync, and is then cleaned up the way the engine does it
+// (abortFileWriter: Abort, then TombstoneFile): nothing of the pointer is left behind and the scan
+// still lists exactly what was published.
+//
+//vp:override bs.encodeFilterSection=vpEncodeSectionConst
+//vp:override bs.parseFilterSection=vpParseSectionOK
+//vp:maxpaths 600000
+//vp:maxsteps 600000
+//vp:bounds histories of up to 5 calls over two writers as above, every Close may fail at its temp-file fsync, its rename or its directory fsync (directory model only: OS errors cannot be injected natively)
+func HS_C16_histories_with_os_errors_inside_close() { vpFSHistories(true) }
